@@ -108,6 +108,7 @@ def load_module(path, name=None):
 def native_replay(path, call):
     """Evaluate the counterexample call natively on the real code.  -> (result, exc)"""
     mod = load_module(path, 'vfch_replay_' + os.path.basename(path)[:-3])
+    native_replay.last_module = mod
     try:
         return eval(call, dict(vars(mod))), None
     except Exception as e:  # the harness calls real sqlparse code: an escape is a finding too
@@ -115,8 +116,9 @@ def native_replay(path, call):
 
 
 class Job:
-    def __init__(self, module, func, timeout, subst=None, label=None, twin=True):
+    def __init__(self, module, func, timeout, subst=None, label=None, twin=True, explain=None):
         self.module, self.func, self.timeout = module, func, timeout
+        self.explain = explain      # explain(module, args) -> dict, run natively on a counterexample
         self.subst = subst or {}
         self.label = label or func
         self.twin = twin
@@ -172,6 +174,13 @@ def run_jobs(jobs, twin_timeout=40):
                 val, exc = native_replay(res['file'], call)
                 res['native_result'] = repr(val) if exc is None else f'{type(exc).__name__}: {exc}'
                 res['replayed'] = (exc is not None) or (val == 2)
+                if jobs[k].explain is not None:
+                    try:
+                        mod = native_replay.last_module
+                        args = eval(call.replace(jobs[k].func + '(', '(lambda *a, **kw: (a, kw))(', 1), dict(vars(mod)))
+                        res['explain'] = jobs[k].explain(mod, args)
+                    except Exception as e:
+                        res['explain'] = dict(error=f'{type(e).__name__}: {e}')
         return results
     finally:
         shutil.rmtree(tmp, ignore_errors=True)
